@@ -13,6 +13,7 @@ import (
 	"os"
 	"path/filepath"
 	"sort"
+	"strconv"
 	"strings"
 	"time"
 
@@ -35,10 +36,15 @@ func (c *Ctx) Thorough() bool { return c.Tier == "thorough" }
 
 // N picks the case count by tier.
 func (c *Ctx) N(quick, thorough int) int {
+	n := quick
 	if c.Thorough() {
-		return thorough
+		n = thorough
 	}
-	return quick
+	// VERIF_SCALE=k cuts the random streams to 1/k (the second, 32-bit pass of the parser family)
+	if k, err := strconv.Atoi(os.Getenv("VERIF_SCALE")); err == nil && k > 1 && n >= 4*k {
+		n /= k
+	}
+	return n
 }
 
 // Finding is one entry of /verif/known_findings.json.
